@@ -269,4 +269,61 @@ func c15Generic(c *Ctx, n6, n7 int) {
 		res.Count(fmt.Sprintf("complex/%d", cs["bits"]))
 		res.Case("7|"+text+"|"+out, want != 0, cs)
 	}
+
+	// stream 8: a parse result belongs to its caller.  Writing into it (what the flag helpers do when a flag is
+	// repeated, what a program does with its config) must not change what a later parse of the same text returns -
+	// in particular for the EMPTY text, whose result invites sharing.
+	ownTypes := []reflect.Type{reflect.TypeOf(map[string]struct{}(nil)), reflect.TypeOf(map[string]string(nil)), reflect.TypeOf(map[string][]string(nil)),
+		reflect.TypeOf(map[string]int(nil)), reflect.TypeOf([]string(nil)), reflect.TypeOf([]int(nil)), reflect.TypeOf(map[int]bool(nil))}
+	ownTexts := map[reflect.Type][]string{
+		ownTypes[0]: {"", "a", "a,b"}, ownTypes[1]: {"", "a:1", "a:1,b:2"}, ownTypes[2]: {"", "a:1", "a:1,a:2,b:3"},
+		ownTypes[3]: {"", "a:1", "a:1,b:2"}, ownTypes[4]: {"", "a", "a,b"}, ownTypes[5]: {"", "1", "1,2"}, ownTypes[6]: {"", "1:true"},
+	}
+	for i := 0; i < n7/4+1; i++ {
+		t := ownTypes[r.Intn(len(ownTypes))]
+		text := ownTexts[t][r.Intn(len(ownTexts[t]))]
+		if r.Chance(40) {
+			text = ""
+		}
+		cs := map[string]any{"stream": "result ownership", "type": t.String(), "text": text}
+		var first, second reflect.Value
+		var err1, err2 error
+		before, after := "", ""
+		pn := catch(func() {
+			first, err1 = parse.String(text, t)
+			if err1 != nil {
+				return
+			}
+			before = fmt.Sprint(first.Interface())
+			// the caller writes into its result
+			switch t.Kind() {
+			case reflect.Map:
+				k := reflect.New(t.Key()).Elem()
+				if t.Key().Kind() == reflect.String {
+					k.SetString("written-by-the-caller")
+				} else {
+					k.SetInt(77)
+				}
+				first.SetMapIndex(k, reflect.New(t.Elem()).Elem())
+			case reflect.Slice:
+				if first.Len() > 0 {
+					first.Index(0).Set(reflect.Zero(t.Elem()))
+				}
+			}
+			second, err2 = parse.String(text, t)
+			if err2 == nil {
+				after = fmt.Sprint(second.Interface())
+			}
+		})
+		switch {
+		case pn != "":
+			res.Add(Finding{Kind: "violation", What: "parse.String panicked: " + pn, Case: cs})
+		case err1 != nil || err2 != nil:
+			res.Add(Finding{Kind: "violation", What: "a canonical collection text was rejected", Case: cs, Observed: fmt.Sprint(err1, err2)})
+		case before != after:
+			res.Add(Finding{Kind: "violation", What: "parsing the same text again gave a different value after the caller wrote into the first result (results share memory)", Case: cs, Expected: before, Observed: after})
+		}
+		res.Count("ownership/" + t.String())
+		res.Case("8|"+t.String()+"|"+text+"|"+strconv.Itoa(i%3), text == "", cs)
+	}
 }
